@@ -9,6 +9,10 @@ def check(rep, tier, rng):
     n = 500 if tier == "quick" else 20000
     cases = t3.corpus_supported(n, rng, variants=3)
     cases += [{"text": t, "items": None, "kind": "golden"} for t in t3.golden_inputs()]
+    import specgen
+    for ctag, items in specgen.catalog():
+        cases.append({"text": specgen.render(items), "items": items, "kind": "catalogue", "mode": "plain"})
+        cases.append({"text": specgen.render(rng.shuffle(items), specgen.Layout(rng, "light")), "items": items, "kind": "catalogue", "mode": "light"})
     res = t3.run_texts([c["text"] for c in cases])
     tie_breaks, nviol, distinct = [], 0, set()
     kinds = {}
@@ -26,7 +30,7 @@ def check(rep, tier, rng):
                                    "how": "echo \"ast $(printf %s TEXT | xxd -p | tr -d '\\n')\" | harness/front/target/debug/fxfront"})
     rep.cov.update({"evaluations": len(cases), "distinct_nontrivial": len(distinct),
                     "traces_validated_against_impl": len(cases) - len(tie_breaks), "input_kinds": kinds,
-                    "rule": "declaration models from specgen (supported subset) printed plain and under 2 random layouts/orders each, plus every r#\"..\"# "
+                    "rule": "declaration models from specgen (supported subset) printed plain and under 2 random layouts/orders each, plus the construct catalogue (long arrays, extreme bounds, names that look like primitive spellings, …) and every r#\"..\"# "
                             "specification harvested from /repo/src; three-way: Ast::new dump = Fx model dump = ast_of(D). distinct = distinct Ast dumps",
                     "samples": [{"text": c["text"][:400], "impl": i[:400]} for c, (i, m) in list(zip(cases, res))[:: max(1, len(cases) // 5)]][:5]})
     if tie_breaks and nviol == 0:
